@@ -188,12 +188,118 @@ class Walker:
         return [self.rules[i][0].pattern for i in range(len(self.rules)) if i not in self.used]
 
 
-def find_method(tree: ast.Module, cls: str, name: str) -> ast.FunctionDef:
+def local_names(fn: ast.FunctionDef) -> list[str]:
+    """the locals of fn in order of first binding (assignment targets, for targets, comprehension variables,
+    `except ... as x`, nested function names); parameters are not locals"""
+    ps = set(params(fn))
+    found = []
+    for n in ast.walk(fn):
+        if isinstance(n, ast.Name) and isinstance(n.ctx, ast.Store):
+            found.append((n.lineno, n.col_offset, n.id))
+        elif isinstance(n, ast.ExceptHandler) and n.name:
+            found.append((n.lineno, n.col_offset, n.name))
+        elif isinstance(n, (ast.FunctionDef, ast.ClassDef)) and n is not fn:
+            found.append((n.lineno, n.col_offset, n.name))
+    out = []
+    for _, _, name in sorted(found):
+        if name not in ps and name not in out:
+            out.append(name)
+    return out
+
+
+def canonicalise(fn: ast.FunctionDef, canon: list[str]) -> ast.FunctionDef:
+    """alpha-normalisation: the i-th local (by first binding) is renamed to canon[i], the name the RULES use;
+    renaming a local in the source therefore does not change the generated code.  A different number of locals is a
+    structural change (fail-closed)."""
+    names = local_names(fn)
+    if len(names) != len(canon):
+        raise Untranslatable(f"{fn.name}: {len(names)} locals {names}, the mapping knows {len(canon)}")
+    ren = dict(zip(names, canon))
+    clash = [c for n, c in ren.items() if c != n and c in names and ren.get(c) != c and names.index(c) != canon.index(c)]
+
+    class R(ast.NodeTransformer):
+        def visit_Name(self, n):
+            if n.id in ren:
+                n.id = ren[n.id]
+            return n
+
+        def visit_ExceptHandler(self, n):
+            if n.name in ren:
+                n.name = ren[n.name]
+            self.generic_visit(n)
+            return n
+
+        def visit_FunctionDef(self, n):
+            if n is not fn and n.name in ren:
+                n.name = ren[n.name]
+            self.generic_visit(n)
+            return n
+
+        def visit_ClassDef(self, n):
+            if n.name in ren:
+                n.name = ren[n.name]
+            self.generic_visit(n)
+            return n
+    return ast.fix_missing_locations(R().visit(fn))
+
+
+def canonicalise_by_value(fn: ast.FunctionDef, value_rules) -> ast.FunctionDef:
+    """alpha-normalisation for long methods that other edits keep touching: a local is renamed to the canonical
+    name of the first rule (regex on the unparsed right-hand side / for-iterable, after the renames made so far) that
+    its first binding matches; every `except ... as x` name becomes `error`; other locals keep their names."""
+    rules = [(re.compile(rx, re.S), nm) for rx, nm in value_rules]
+    ren: dict[str, str] = {}
+
+    def rename(node):
+        class R(ast.NodeTransformer):
+            def visit_Name(self, n):
+                if n.id in ren:
+                    n.id = ren[n.id]
+                return n
+
+            def visit_ExceptHandler(self, n):
+                if n.name:
+                    n.name = ren.get(n.name, n.name)
+                self.generic_visit(n)
+                return n
+        return R().visit(node)
+
+    binds = []
+    for n in ast.walk(fn):
+        if isinstance(n, (ast.Assign, ast.AnnAssign)) and n.value is not None:
+            tg = n.targets[0] if isinstance(n, ast.Assign) else n.target
+            if isinstance(tg, ast.Name):
+                binds.append((n.lineno, n.col_offset, tg.id, n.value))
+        elif isinstance(n, ast.For) and isinstance(n.target, ast.Name):
+            binds.append((n.lineno, n.col_offset, n.target.id, n.iter))
+        elif isinstance(n, ast.ExceptHandler) and n.name:
+            binds.append((n.lineno, n.col_offset, n.name, None))
+    seen = set()
+    for _, _, name, value in sorted(binds, key=lambda b: (b[0], b[1])):
+        if name in seen:
+            continue
+        seen.add(name)
+        if value is None:
+            if name != "error":
+                ren[name] = "error"
+            continue
+        import copy
+        t = ast.unparse(rename(copy.deepcopy(value)))
+        for rx, nm in rules:
+            if rx.fullmatch(t):
+                if nm != name:
+                    ren[name] = nm
+                break
+    return ast.fix_missing_locations(rename(fn))
+
+
+def find_method(tree: ast.Module, cls: str, name: str, canon: list[str] | None = None) -> ast.FunctionDef:
     for node in ast.walk(tree):
         if isinstance(node, ast.ClassDef) and node.name == cls:
             for m in node.body:
                 if isinstance(m, ast.FunctionDef) and m.name == name:
-                    return normalise(m)
+                    m = normalise(m)
+                    return canonicalise(m, canon) if canon is not None else m
     raise Untranslatable(f"{cls}.{name} not found")
 
 
